@@ -91,6 +91,25 @@ theorem splitArray_refuses_iff_needs_nonneg :
     splitArray [⟨-10,-8,0⟩, ⟨-5,-4,1⟩] (-6) false = .error .cannotSplit ∧
     ¬ ∃ r ∈ [(⟨-10,-8,0⟩ : Row), ⟨-5,-4,1⟩], r.straddles (-6) := by decide
 
+/-- Translation invariance: on non-negative data (`0 ≤ time ≤ endt`) shifting every time and the
+split time by `k ≥ 0` shifts the result of `split_array` by `k` and changes nothing else (the
+only absolute constant of the loop, `latest_end_seen = -1`, stays below all times).  This is why
+small-grid exhaustive sweeps plus a sample of epoch-scale (shifted) harness runs cover the time
+axis. -/
+theorem splitArray_shift (data : List Row) (t k : Int) (early : Bool) (hk : 0 ≤ k)
+    (hnn : ∀ r ∈ data, 0 ≤ r.time ∧ r.time ≤ r.endt) :
+    splitArray (data.map (Row.shift k)) (t + k) early =
+      match splitArray data t early with
+      | .ok (l, r, t') => .ok (l.map (Row.shift k), r.map (Row.shift k), t' + k)
+      | .error e => .error e :=
+  splitArray_shift' data t k early hk hnn
+
+example : (∀ r ∈ [(⟨0,3,0⟩ : Row), ⟨3,6,1⟩, ⟨5,8,2⟩], 0 ≤ r.time ∧ r.time ≤ r.endt) ∧
+    splitArray ([⟨0,3,0⟩, ⟨3,6,1⟩, ⟨5,8,2⟩].map (Row.shift 1700000000000000137)) (7 + 1700000000000000137) true
+      = .ok ([⟨1700000000000000137, 1700000000000000140, 0⟩],
+             [⟨1700000000000000140, 1700000000000000143, 1⟩, ⟨1700000000000000142, 1700000000000000145, 2⟩],
+             1700000000000000140) := by decide
+
 /-! ## 4. the early split time is the latest admissible one -/
 
 theorem splitArray_early_latest (data : List Row) (t : Int) (l r : List Row) (t' : Int)
